@@ -688,6 +688,11 @@ fn rule_doc_case(spec: &str, mode: &str) -> i32 {
 fn dict_case(args: &[String]) -> i32 {
     use harper_core::{Dictionary, FstDictionary, MergedDictionary, MutableDictionary, WordMetadata};
     use std::sync::Arc;
+    // `history:<query>:<distance>` first: an earlier fuzzy look-up on this thread (thread-local state must not leak into results)
+    let (history, args) = match args.first().and_then(|a| a.strip_prefix("history:")) {
+        Some(h) => (h.rsplit_once(':').map(|(q, d)| (q.to_string(), d.parse::<u8>().unwrap_or(3))), &args[1..]),
+        None => (None, args),
+    };
     let q: Vec<char> = args[0].chars().collect();
     let d: u8 = args[1].parse().unwrap();
     let r: usize = args[2].parse().unwrap();
@@ -715,6 +720,11 @@ fn dict_case(args: &[String]) -> i32 {
         merged.add_dictionary(Arc::new(one));
     }
     let fst = FstDictionary::new(words.iter().enumerate().map(|(k, w)| (w.iter().copied().collect(), meta(k))).collect());
+    if let Some((q0, d0)) = &history {
+        let q0c: Vec<char> = q0.chars().collect();
+        let _ = fst.fuzzy_match(&q0c, *d0, 100);
+        let _ = FstDictionary::curated().fuzzy_match(&q0c, *d0, 100);
+    }
     let distinct_lower = { let mut l: Vec<_> = words.iter().map(|w| lower(w)).collect(); l.sort(); l.dedup(); l.len() == words.len() };
     let mut bad = 0;
     let first = words.iter().position(|w| lower(w) == lower(&q));
